@@ -183,6 +183,7 @@ type c20ShutCase struct {
 	Phase   string `json:"phase"`   // at-backend | uploading | idle
 	Finish  string `json:"finish"`  // inside | outside
 	FinishS float64
+	Health  bool `json:"health_checks_enabled,omitempty"` // the agent also runs health checks (1 s interval, threshold 2) against a backend that always passes them
 }
 
 var c20BeginRe = regexp.MustCompile(`Begin graceful shutdown`)
@@ -280,6 +281,9 @@ func c20Shutdown(r *core.Run, agentBin string, md *fakes.Metadata, c c20ShutCase
 	args := []string{}
 	if c.GraceS > 0 {
 		args = append(args, fmt.Sprintf("--graceful-shutdown-timeout=%ds", c.GraceS))
+	}
+	if c.Health {
+		args = append(args, "--health-check-path=/healthz", "--health-check-interval-seconds=1", "--health-check-unhealthy-threshold=2")
 	}
 	fetchHeld := make(chan struct{}, 1)
 	if c.Phase == "listed" {
@@ -431,6 +435,9 @@ func c20Shutdown(r *core.Run, agentBin string, md *fakes.Metadata, c c20ShutCase
 		}()
 	}
 	cls := fmt.Sprintf("shutdown|%s|grace=%d|%s|%s", c.Signal, c.GraceS, c.Phase, c.Finish)
+	if c.Health {
+		cls += "|health-checks-on"
+	}
 	if !confirm {
 		r.Case(cls)
 	}
@@ -583,6 +590,13 @@ func C20(r *core.Run) {
 				}
 			}
 		}
+	}
+	// health checks keep passing while the grace period (longer than interval x threshold) runs: the in-flight request is still answered
+	scs = append(scs, c20ShutCase{Name: fmt.Sprintf("s%d", len(scs)), Signal: "INT", GraceS: 7, Phase: "at-backend", Finish: "inside", FinishS: 4.5, Health: true})
+	if !r.Quick() {
+		scs = append(scs, c20ShutCase{Name: fmt.Sprintf("s%d", len(scs)), Signal: "TERM", GraceS: 7, Phase: "uploading", Finish: "inside", FinishS: 4.5, Health: true},
+			c20ShutCase{Name: fmt.Sprintf("s%d", len(scs)+1), Signal: "TERM", GraceS: 5, Phase: "at-backend", Finish: "outside", FinishS: 7, Health: true},
+			c20ShutCase{Name: fmt.Sprintf("s%d", len(scs)+2), Signal: "INT", GraceS: 0, Phase: "at-backend", Finish: "inside", FinishS: 1, Health: true})
 	}
 	if !r.Quick() {
 		// repetitions of the schedule-sensitive scenarios
